@@ -113,7 +113,7 @@ Definition scen_closes_fault (cfg : config) (id : nat) (own : list nat) : bool :
   c_faults cfg HAfterScenario id || existsb (c_faults cfg HAfterTag) own.
 
 Theorem scenario_hooks_shape cfg (H : all_hooks cfg) st id all_steps oe eff own st' res fld ev :
-  c_expr cfg eff = true ->
+  sel cfg eff = true ->
   run_scenario cfg st id all_steps oe eff own = (st', res, fld, ev) ->
   exists body,
     hooks_of ev = map (pair HBeforeTag) own ++ [(HBeforeScenario, id)] ++ body
@@ -190,7 +190,7 @@ Definition closes_fault (cfg : config) (ha : hookname) (id : nat) (tags : list n
   c_faults cfg ha id || existsb (c_faults cfg HAfterTag) tags.
 
 Theorem rule_hooks_shape cfg (H : all_hooks cfg) st r anc inh fhb st' res fld ev :
-  rule_should_run cfg anc r = true ->
+  rule_runs cfg anc r = true ->
   run_rule cfg st r anc inh fhb = (st', res, fld, ev) ->
   exists body,
     hooks_of ev = map (pair HBeforeTag) (r_tags r) ++ [(HBeforeRule, r_id r)] ++ body
@@ -270,18 +270,22 @@ Proof.
   destruct (pop sd) as [[st4 cr] ev_pop] eqn:E6. apply pop_quiet in E6.
   intros E; inversion E; subst; clear E.
   exists (hooks_of evi). cbn [fr_hook_failed fr_items fr_status].
-  assert (Hann : forall (hb : bool) l, hooks_of (if hb then [EFmt (FBackground l)] else []) = []
-                                       /\ call_ids (if hb then [EFmt (FBackground l)] else []) = [])
-    by (intros [] l; split; reflexivity).
+  assert (Hann : forall (sh hb : bool) x l,
+             hooks_of (if sh then EFmt x :: (if hb then [EFmt (FBackground l)] else []) else []) = []
+             /\ call_ids (if sh then EFmt x :: (if hb then [EFmt (FBackground l)] else []) else []) = [])
+    by (intros [] [] x l; split; reflexivity).
+  assert (Heof : forall sh : bool, hooks_of (if sh then [EFmt FEof] else []) = []
+                                  /\ call_ids (if sh then [EFmt FEof] else []) = [])
+    by (intros []; split; reflexivity).
   repeat split.
-  - repeat (rewrite ?hooks_of_app; cbn [hooks_of]). rewrite (proj1 (Hann _ _)).
+  - repeat (rewrite ?hooks_of_app; cbn [hooks_of]). rewrite (proj1 (Hann _ _ _ _)), (proj1 (Heof _)).
     rewrite A1, B1, D1, F1, (hooks_of_quiet _ E6). cbn [app hooks_of].
     now rewrite !app_nil_r, <- !app_assoc.
   - unfold opens_fault, closes_fault. now rewrite !orb_assoc.
   - unfold opens_fault in H0. rewrite H0 in E3. cbn [orb] in E3. rewrite run_fitems_stopped in E3.
     inversion E3; subst. reflexivity.
   - unfold opens_fault in H0. rewrite H0 in E3. cbn [orb] in E3. rewrite run_fitems_stopped in E3.
-    inversion E3; subst. repeat (rewrite ?call_ids_app; cbn [call_ids]). rewrite (proj2 (Hann _ _)).
+    inversion E3; subst. repeat (rewrite ?call_ids_app; cbn [call_ids]). rewrite (proj2 (Hann _ _ _ _)), (proj2 (Heof _)).
     rewrite C1, C2, C4, C5, (allq_calls _ E6). reflexivity.
   - unfold opens_fault in H0. rewrite H0 in E3. cbn [orb] in E3. rewrite run_fitems_stopped in E3.
     inversion E3; subst. reflexivity.
